@@ -277,7 +277,21 @@ var bogusSDPs = []func(rng *rand.Rand) string{
 // mutateReq applies one grammar-level mutation to a request.
 func (g *genCtx) mutateReq(r *RawReq, otherSess string) string {
 	rng := g.rng
-	switch rng.IntN(22) {
+	// prefer the mutations that concern the method of the request
+	var own []int
+	switch r.Method {
+	case "SETUP":
+		own = []int{9, 10, 11, 11, 11, 12, 13, 18, 19, 20, 21}
+	case "ANNOUNCE":
+		own = []int{15, 16, 17, 17, 17}
+	case "PLAY", "RECORD", "PAUSE", "TEARDOWN", "GET_PARAMETER":
+		own = []int{3, 4, 5, 6, 8}
+	}
+	k := rng.IntN(22)
+	if len(own) > 0 && rng.IntN(5) < 3 {
+		k = own[rng.IntN(len(own))]
+	}
+	switch k {
 	case 0:
 		r.del("CSeq")
 		return "no-cseq"
